@@ -76,7 +76,11 @@ def main(out):
         with tempfile.TemporaryDirectory() as home:
             os.environ["TRAFFIC_WEAVER_DATA"] = home
             B._fetch_remote = fake_fetch
+            first_remote = None
             try:
+                got = B.get_data_home()
+                if os.path.realpath(got) != os.path.realpath(home):
+                    problems.append(dict(name="TRAFFIC_WEAVER_DATA", problem=f"get_data_home() returns {got}, not the directory named by the variable"))
                 dd = os.path.join(os.path.dirname(B.__file__), "data_description")
                 for f in sorted(glob.glob(os.path.join(dd, "*.md"))):
                     for line in open(f, encoding="utf-8"):
@@ -84,6 +88,7 @@ def main(out):
                         if not mm or mm.group(1).startswith("sandvine"):
                             continue
                         n = mm.group(1)
+                        first_remote = first_remote or n
                         before = len(downloads)
                         try:
                             data = D.load_dataset(n)
@@ -94,6 +99,24 @@ def main(out):
                             problems.append(dict(name=n, problem=f"{len(downloads) - before} downloads for a name requested for the first time (cache slot shared with another dataset?)"))
                         elif not (getattr(data, "shape", None) == (2, 2) and float(data[0, 1]) == float(len(downloads))):
                             problems.append(dict(name=n, problem="the data returned is not the file downloaded for this name"))
+                # history: TRAFFIC_WEAVER_DATA changed later in the same process -> the cache lives under the NEW directory
+                if first_remote is not None:
+                    with tempfile.TemporaryDirectory() as home2:
+                        os.environ["TRAFFIC_WEAVER_DATA"] = home2
+                        try:
+                            got = B.get_data_home()
+                            if os.path.realpath(got) != os.path.realpath(home2):
+                                problems.append(dict(name="TRAFFIC_WEAVER_DATA", problem=f"after the variable was changed to {home2} in the same "
+                                                     f"process get_data_home() still returns {got}"))
+                            before = len(downloads)
+                            D.load_dataset(first_remote)
+                            files2 = [f for _, _, fs in os.walk(home2) for f in fs]
+                            if len(downloads) != before + 1 or not files2:
+                                problems.append(dict(name=first_remote, problem="after TRAFFIC_WEAVER_DATA was changed the cache file is not "
+                                                     "created under the directory it names (history: load, change the variable, load)"))
+                        except Exception as e:
+                            problems.append(dict(name=first_remote, problem=f"after changing TRAFFIC_WEAVER_DATA: {type(e).__name__}: {e}"))
+                        os.environ["TRAFFIC_WEAVER_DATA"] = home
             finally:
                 B._fetch_remote = real_fetch
                 if old_env is None:
